@@ -15,7 +15,8 @@ from mc.lib import Acc
 
 SCORES_Q = [0.0, 1e-6, 0.3, 1.0, 2.0, 3.0, 7.0, 1000.0]
 DIMS = [2, 3, 4, 6]
-RULES = ["sketch_trace", "tail_rho", "sketch_intrinsic_rank"]
+RULES = ["sketch_trace", "tail_rho", "sketch_intrinsic_rank", "ggt_trace",
+         "ggt_intrinsic_rank"]
 
 
 def _axis_entry(rule, dim, score):
@@ -35,8 +36,17 @@ def _axis_entry(rule, dim, score):
       eig = [1.0] * k + ([score - k] if score > k else [])
   else:
     eig = [1.0]
-  return {"eigvals": jnp.array(eig, dtype=jnp.float32),
-          "tail": jnp.array(score, dtype=jnp.float32), "dim": dim}
+  ent = {"eigvals": jnp.array(eig, dtype=jnp.float32),
+         "tail": jnp.array(score, dtype=jnp.float32), "dim": dim}
+  if rule == "ggt_trace":
+    ent["ema_ggt"] = jnp.diag(jnp.array([score] + [0.0] * (dim - 1),
+                                        dtype=jnp.float32))
+  elif rule == "ggt_intrinsic_rank":
+    # trace / spectral norm: k ones on the diagonal give rank k (>= 1)
+    k = max(1, min(dim, int(round(score)) if score >= 1 else 1))
+    ent["ema_ggt"] = jnp.diag(jnp.array([1.0] * k + [0.0] * (dim - k),
+                                        dtype=jnp.float32))
+  return ent
 
 
 def _true_score(rule, score):
@@ -48,8 +58,14 @@ def _true_score(rule, score):
   return score
 
 
-def build_state(rule, axes, layout):
-  """axes: list of (dim, score); layout 'single' or 'paired'."""
+def build_state(rule, axes, layout, averaged=False):
+  """axes: list of (dim, score); layout 'single' or 'paired'.  With
+  averaged=True two checkpoints are returned whose scores average to the
+  requested ones (2s and 0)."""
+  if averaged:
+    hi = build_state(rule, [(d, 2 * s) for d, s in axes], layout)[0]
+    lo = build_state(rule, [(d, 0.0) for d, s in axes], layout)[0]
+    return (hi, lo)
   sketches = {}
   if layout == "single":
     for i, (d, s) in enumerate(axes):
@@ -69,15 +85,15 @@ def locate(layout, i):
   return "L%d" % (i // 2), i % 2
 
 
-def check_instance(acc, rule, axes, layout, base_rank):
+def check_instance(acc, rule, axes, layout, base_rank, averaged=False):
   from precondition.tearfree import reallocation
   case = {"rule": rule, "axes": [list(a) for a in axes], "layout": layout,
-          "base_rank": base_rank}
-  sig = "C17|%s|%s|%s|%d" % (rule, axes, layout, base_rank)
+          "base_rank": base_rank, "running_average": averaged}
+  sig = "C17|%s|%s|%s|%d|%d" % (rule, axes, layout, base_rank, averaged)
   acc.transitions += 1
-  states = build_state(rule, axes, layout)
+  states = build_state(rule, axes, layout, averaged)
   try:
-    res = reallocation.create_redist_dict("", [-1], rule, False, base_rank,
+    res = reallocation.create_redist_dict("", [-1], rule, averaged, base_rank,
                                           states)
   except Exception as e:  # pylint: disable=broad-except
     acc.outcome("exception")
@@ -190,4 +206,9 @@ def run_task(task):
         if base_rank >= 2 or len({s for _, s in axes}) > 1:
           acc.nontrivial += 1
         check_instance(acc, rule, list(axes_true), layout, base_rank)
+        if base_rank == 2 and rule in ("sketch_trace", "tail_rho",
+                                       "ggt_trace"):
+          acc.states += 1
+          acc.nontrivial += 1
+          check_instance(acc, rule, list(axes_true), layout, base_rank, True)
   return acc.result()
